@@ -40,3 +40,10 @@ PROPS['C08'] = dict(level='model_checking',
     H('v2_two_nest_one_join', 'C08_scope_v2.cpp', ['h_nest0', 'h_nest1', 'h_join0'], 24, final='h_final21', tier='thorough', timeout=3000, desc='two nest/start/complete racing join'),
     H('v2_nest_two_joins', 'C08_scope_v2.cpp', ['h_nest0', 'h_join0', 'h_join1'], 24, final='h_final12', tier='thorough', timeout=3000, desc='one nest racing two joins'),
   ])
+
+PROPS['C19'] = dict(level='model_checking',
+  bounds='T=2 (runner = start + natural completion, stopper), K per harness; symbolic completion channel',
+  outside='create_basic_sender (recursive mutex + weak_ptr control blocks), more than one stopper',
+  harnesses=[
+    H('detach_stop_vs_complete', 'C19_detach.cpp', ['h_run', 'h_stop_check'], 30, desc='detach_on_cancel: natural completion racing a stop request; receiver frees the op'),
+  ])
